@@ -365,6 +365,15 @@ impl<'a> Interp<'a> {
                 self.act(Act::OnSym(v))?
             }
             Expr::SelfSym => cx.sym,
+            Expr::PeekZ(n, m, g) => {
+                let c = self.act(Act::Node(*n, 0))?;
+                let g = self.eval(g, cx)?;
+                if c == 0 {
+                    (self.act(Act::Node(*m, 0))? & g) | g
+                } else {
+                    c | g
+                }
+            }
             Expr::Acc(e) => {
                 let v = self.eval(e, cx)?;
                 let tag = self.stack.last().map(|a| act_tag(*a)).unwrap_or(0);
@@ -410,6 +419,11 @@ pub enum Expect {
 }
 
 pub fn expect_req(prog: &Prog, inp: &Inputs, req: &Req) -> Expect {
+    expect_req_calls(prog, inp, req).0
+}
+
+/// Expected outcome plus the node activations a from-scratch evaluation performs.
+pub fn expect_req_calls(prog: &Prog, inp: &Inputs, req: &Req) -> (Expect, Vec<(u32, u16)>) {
     let mut it = Interp::new(prog, inp);
     let r: Result<Expect, PanicClass> = (|| {
         Ok(match req {
@@ -443,9 +457,18 @@ pub fn expect_req(prog: &Prog, inp: &Inputs, req: &Req) -> Expect {
             Req::Entries => Expect::Ents(vec![]),
         })
     })();
+    let mut calls: Vec<(u32, u16)> = it
+        .acts
+        .keys()
+        .filter_map(|a| match a {
+            Act::Node(n, arg) => Some((*n as u32, *arg)),
+            _ => None,
+        })
+        .collect();
+    calls.sort();
     match r {
-        Ok(e) => e,
-        Err(p) => Expect::Panic(p),
+        Ok(e) => (e, calls),
+        Err(p) => (Expect::Panic(p), calls),
     }
 }
 
@@ -482,6 +505,13 @@ pub fn call_edges(prog: &Prog, inp: &Inputs) -> Vec<Vec<NodeId>> {
             Expr::Bin(_, a, b) => {
                 walk(a, inp, out);
                 walk(b, inp, out);
+            }
+            Expr::PeekZ(n, m, _) => {
+                for x in [n, m] {
+                    if !out.contains(x) {
+                        out.push(*x)
+                    }
+                }
             }
             _ => {}
         }
@@ -580,8 +610,13 @@ fn eval_with(e: &Expr, inp: &Inputs, vals: &[u16]) -> u16 {
             }
         }
         Expr::Bin(op, a, b) => op.apply(eval_with(a, inp, vals), eval_with(b, inp, vals)),
+        Expr::PeekZ(n, _, g) => vals[*n] | eval_with(g, inp, vals),
         _ => 0,
     }
+}
+
+pub fn eval_with_pub(e: &Expr, inp: &Inputs, vals: &[u16]) -> u16 {
+    eval_with(e, inp, vals)
 }
 
 /// Kleene iteration from bottom (simultaneous). `None` if it does not stabilise within `cap` rounds.
